@@ -19,6 +19,8 @@ func checkC04(p *Prog, r *Report) {
 	r.Trusted("sync.Pool hands an object to one goroutine at a time", "bufio.Reader.Reset discards all buffered state")
 	rulePoolReset(p, r)
 	rulePoolUAR(p, r, "C04")
+	rulePoolOwn(p, r)
+	r.Floor("POOL-OWN", 6)
 	ruleGlobW(p, r)
 	ruleSizeG(p, r)
 	ruleStale(p, r)
